@@ -132,7 +132,7 @@ def run_check(pid, tier, seed, harness_specs, level_note, args):
             groups.setdefault((v['law'], v.get('role', 'general')), []).append(v)
         vsummary = []
         for (law, role), vs in sorted(groups.items()):
-            kf = next((k for k in known if k.get('law') == law and k.get('role') == role and k.get('harness', hz.name) == hz.name), None)
+            kf = next((k for k in known if k.get('law') == law and k.get('role') == role and k.get('harness', hz.name) == hz.name), None) if role != 'general' else None
             confirmed = None
             rep_paths = []
             for v in vs[:3]:
